@@ -77,6 +77,8 @@ def parse_ty(s, classes, opaque):
         if isinstance(n, ast.Name):
             if n.id in PRIMS:
                 return PRIMS[n.id]
+            if n.id.startswith("Frac") and n.id[4:].isdigit():
+                return T("Frac", int(n.id[4:]))
             if n.id in classes:
                 return T("Class", n.id)
             if n.id in opaque:
@@ -103,8 +105,13 @@ def parse_ty(s, classes, opaque):
     return go(node)
 
 
+IMMUTABLE_OPAQUE = set()  # opaque types declared `"immutable": True` in the spec (stateless handles)
+
+
 def is_mutable_ty(t):
     """can an object of this type be changed in place (so that aliases matter)?"""
+    if t.k == "Opaque" and t.a[0] in IMMUTABLE_OPAQUE:
+        return False
     return t.k in ("List", "Dict", "Set", "Class", "Opaque")
 
 
@@ -136,6 +143,13 @@ class Path:
     def __repr__(self):
         return self.root + "".join("." + s[1] if s[0] == "f" else "[%s]" % s[1] for s in self.steps)
 
+    def key_names(self):
+        out = set()
+        for s in self.steps:
+            if s[0] in ("k", "i"):
+                out |= set(s[3])
+        return out
+
 
 class Val:
     """a translated expression: Lean text, type, the lvalue path it denotes (if any), may it raise"""
@@ -165,6 +179,7 @@ class FnInfo:
     def __init__(self, lean, params, ret, has_self, cls):
         self.lean, self.params, self.ret, self.has_self, self.cls = lean, params, ret, has_self, cls
         self.mutated = []  # parameter names returned next to the result
+        self.effects = False  # returns the list of effects it caused (spec EFFECTS) as its last component
         self.monadic = False
         self.uses_lower = False
 
@@ -246,6 +261,7 @@ class Area:
     def __init__(self, spec, common, tree, consts, rel):
         self.spec, self.common, self.tree, self.consts, self.rel = spec, common, tree, consts, rel
         self.opaque = common.OPAQUE
+        IMMUTABLE_OPAQUE.update(k for k, v in common.OPAQUE.items() if v.get("immutable"))
         self.classes = {c["py"]: c for c in spec.CLASSES}
         self.fields = {}  # class -> {pyfield: (leanfield, T)}
         for c in spec.CLASSES:
@@ -258,6 +274,7 @@ class Area:
                 seen.add(lf)
                 fs[fname] = (lf, self.ty(fty))
             self.fields[c["py"]] = fs
+        self.inits = {}  # class -> [(param, type)] of its translated __init__
         self.fns = {}  # key: (cls or None, pyname) -> FnInfo
         self.pytypes = dict(common.PYTYPES)
         self.pytypes.update(getattr(spec, "PYTYPES", {}))
@@ -359,6 +376,12 @@ class FnTr(Tr):
                 return super().num(e)
             finally:
                 self.guard -= 1
+        if isinstance(e, ast.Call) and isinstance(e.func, ast.Name) and e.func.id in getattr(self.fx.area.spec, "NUMFUNCS", {}) and len(e.args) == 1:
+            kind, k = self.fx.area.spec.NUMFUNCS[e.func.id]
+            n, d = self.num(e.args[0])
+            if kind != "div":
+                self.fail("unknown numeric helper kind", e)
+            return n, d * k
         is_cast = isinstance(e, ast.Call) and isinstance(e.func, ast.Name) and e.func.id in ("int", "float", "_int", "_float", "min", "max")
         if isinstance(e, (ast.Name, ast.Attribute, ast.Subscript)) or (isinstance(e, ast.Call) and not is_cast):
             v = self.fx.expr(e)
@@ -395,7 +418,10 @@ class Fx:
         self.params = []
         self.loop_depth = 0
         self.local_types = {k: area.ty(v) for k, v in spec.get("locals", {}).items()}
-        self.env_calls = {n: [area.ty(t), False] for n, t in spec.get("env", [])}
+        self.env_calls = {e[0]: [area.ty(e[1]), False] for e in spec.get("env", []) if len(e) == 2}
+        # environment *functions* (`RAND_INT(lo, hi)`): a parameter of function type, applied to the translated arguments
+        self.env_fns = {e[0]: ([area.ty(t) for t in e[2]], area.ty(e[1])) for e in spec.get("env", []) if len(e) == 3}
+        self.env_used = set()
         self.reads_log = []  # stack of sets (variables read inside the loops being translated)
         self.kill_log = []
 
@@ -533,7 +559,20 @@ class Fx:
         if isinstance(e, ast.Subscript):
             if isinstance(e.slice, ast.Slice):
                 self.fail("slices are outside the subset", e)
+            if isinstance(e.value, ast.Name) and self.lookup(e.value.id) is None and isinstance(A.consts.get(e.value.id), tuple) \
+                    and isinstance(e.slice, ast.Constant) and isinstance(e.slice.value, int):
+                tup = A.consts[e.value.id]
+                if not (-len(tup) <= e.slice.value < len(tup)) or not isinstance(tup[e.slice.value], int):
+                    self.fail("subscript of the constant %s" % e.value.id, e)
+                c = tup[e.slice.value]
+                return Val(str(c) if c >= 0 else "(%d)" % c, NAT if (want == NAT and c >= 0) else NUM)
             base = self.expr(e.value)
+            idx = e.slice.value if isinstance(e.slice, ast.Constant) else (-(e.slice.operand.value) if isinstance(e.slice, ast.UnaryOp) and isinstance(e.slice.op, ast.USub) and isinstance(e.slice.operand, ast.Constant) else None)
+            if base.ty.k == "List" and idx in (0, -1):
+                which = "first" if idx == 0 else "last"
+                self.monadic()
+                path = base.path.extend(("i", which, "", frozenset())) if base.path is not None else None
+                return Val("(← PyList.%s %s)" % (which, base.text), base.ty.a[0], path, True)
             if base.ty.k == "Dict":
                 k = self.expr(e.slice, base.ty.a[0])
                 self.monadic()
@@ -584,6 +623,8 @@ class Fx:
     def static_cond(self, e):
         """`isinstance(x, list)` & co. are decided by the spec type of x (a parameter of union type is translated once per
         variant); -> True / False / None (not static)"""
+        if isinstance(e, ast.Name) and e.id == "TYPE_CHECKING" and self.lookup(e.id) is None:
+            return False  # typing.TYPE_CHECKING is False at run time
         if isinstance(e, ast.UnaryOp) and isinstance(e.op, ast.Not):
             st = self.static_cond(e.operand)
             return None if st is None else not st
@@ -906,6 +947,22 @@ class Fx:
                     self.fail("%s() is called twice: two readings of the environment cannot share one parameter" % n, e)
                 self.env_calls[n][1] = True
                 return Val(lean_local(n), self.env_calls[n][0])
+            if n in A.classes and not A.classes[n].get("opaque") and n in A.inits:
+                ips = A.inits[n]
+                if len(ips) != len(e.args):
+                    self.fail("%s(...) with %d arguments (its __init__ has %d)" % (n, len(e.args), len(ips)), e)
+                args = [self.expr(a, t) for a, (_n, t) in zip(e.args, ips)]
+                return Val("(%s.init%s)" % (n, "".join(" " + atom(a.text) for a in args)), T("Class", n), None, any(a.raises for a in args))
+            if n == "deque" and not e.args:
+                if want is None or want.k != "List":
+                    self.fail("deque() where %r is expected" % want, e)
+                return Val("[]", want)
+            if n in self.env_fns:
+                ptys, rty = self.env_fns[n]
+                if len(ptys) != len(e.args):
+                    self.fail("%s expects %d arguments" % (n, len(ptys)), e)
+                args = [self.expr(a, t) for a, t in zip(e.args, ptys)]
+                return Val("(%s%s)" % (lean_local(n), "".join(" " + atom(a.text) for a in args)), rty, None, any(a.raises for a in args))
             key = (None, n)
             if key in A.fns:
                 return self.call_translated(A.fns[key], None, e.args, e)
@@ -943,6 +1000,14 @@ class Fx:
                     return self.setdefault(b, e, eq)
             if b.ty.k in ("List", "Set") and m == "copy" and not e.args:
                 return Val(b.text, b.ty, None, b.raises)
+            if b.ty.k == "List" and m == "popleft" and not e.args:
+                if b.path is None:
+                    self.fail("popleft on something that is not an lvalue", e)
+                r = self.fresh("pl")
+                self.monadic()
+                self.emit("let %s ← PyList.popleft %s" % (r, b.text))
+                self.assign_path(b.path, "%s.2" % r, e)
+                return Val("%s.1" % r, b.ty.a[0])
             if b.ty.k == "Opaque":
                 sp = A.opaque[b.ty.a[0]]
                 if m in sp.get("methods", {}):
@@ -1023,7 +1088,7 @@ class Fx:
         if fi.uses_lower:
             self.info.uses_lower = True
         text = "%s%s %s" % (fi.lean, " lower" if fi.uses_lower else "", " ".join(a.text for _p, a in args))
-        comps = ([] if fi.ret == NONE else ["ret"]) + list(fi.mutated)
+        comps = ([] if fi.ret == NONE else ["ret"]) + list(fi.mutated) + (["⟨effects⟩"] if fi.effects else [])
         r = self.fresh("r")
         if fi.monadic:
             self.monadic()
@@ -1038,6 +1103,9 @@ class Fx:
 
         for pn, path in wb:
             self.assign_path(path, comp(comps.index(pn)), node)
+        if fi.effects:
+            self.info.effects = True
+            self.emit("effects := effects ++ %s" % comp(len(comps) - 1))
         if fi.ret == NONE:
             return Val("()", NONE)
         return Val(comp(0), fi.ret)
@@ -1081,6 +1149,8 @@ class Fx:
         for st in path.steps:
             if st[0] == "f":
                 curs.append("%s.%s" % (curs[-1], st[2]))
+            elif st[0] == "i":
+                curs.append("(← PyList.%s %s)" % (st[1], curs[-1]))
             else:
                 curs.append("(← PyDict.getItem %s %s %s)" % (st[2], curs[-1], st[1]))
         if "⟦cur⟧" in newtext:
@@ -1092,6 +1162,10 @@ class Fx:
             st = path.steps[i]
             if st[0] == "f":
                 text = "{ %s with %s := %s }" % (curs[i], st[2], text)
+            elif st[0] == "i":
+                text = "(PyList.set%s %s %s)" % (st[1].capitalize(), atom(curs[i]), atom(text))
+                if "(← " in curs[i]:
+                    self.monadic()
             else:
                 text = "(PyDict.set %s %s %s %s)" % (st[2], curs[i], st[1], atom(text))
                 if "(← " in curs[i]:
@@ -1255,6 +1329,8 @@ class Fx:
             return self.if_stmt(s, rest)
         if isinstance(s, ast.For):
             return self.for_stmt(s)
+        if isinstance(s, ast.While):
+            return self.while_stmt(s)
         self.fail("statement outside the subset: " + type(s).__name__, s)
 
     def assign(self, tgt, value, annot, node):
@@ -1341,8 +1417,47 @@ class Fx:
             if v is not None and not any(repr(p) == repr(path) for p in v.aliases):
                 v.aliases.append(path)
 
+    def try_effect(self, e, node):
+        """a call that the spec's EFFECTS table maps to a returned effect (`loop.call_at(when, self.async_ready)`); -> done?"""
+        A = self.area
+        table = getattr(A.spec, "EFFECTS", None)
+        if not table or not (isinstance(e, ast.Call) and isinstance(e.func, ast.Attribute)) or e.keywords:
+            return False
+        for ent in table["calls"]:
+            if e.func.attr != ent["method"] or len(e.args) != len(ent["args"]):
+                continue
+            recv = self.try_expr(e.func.value)
+            if recv is None or recv.ty != A.ty(ent["recv"]):
+                continue
+            vals = []
+            for a, pat in zip(e.args, ent["args"]):
+                if pat.startswith("="):
+                    if ast.unparse(a) != pat[1:]:
+                        self.fail("effect %s: argument `%s` is not `%s`" % (ent["method"], ast.unparse(a), pat[1:]), node)
+                    continue
+                inner = a
+                if "(" in pat:
+                    fname, ty = pat[:pat.index("(")], pat[pat.index("(") + 1:-1]
+                    if not (isinstance(a, ast.Call) and isinstance(a.func, ast.Name) and a.func.id == fname and len(a.args) == 1 and not a.keywords):
+                        self.fail("effect %s: argument is not %s(...)" % (ent["method"], fname), node)
+                    inner, pat = a.args[0], ty
+                t = A.ty(pat)
+                if t.k == "Frac":
+                    n, d = FnTr(self).num(inner)
+                    if t.a[0] % d != 0:
+                        self.fail("effect %s: a value with denominator %d where %d is expected" % (ent["method"], d, t.a[0]), node)
+                    vals.append(n if d == t.a[0] else "(%s * %d)" % (n, t.a[0] // d))
+                else:
+                    vals.append(atom(self.expr(inner, t).text))
+            self.info.effects = True
+            self.emit("effects := effects ++ [%s]" % ent["lean"].format(*vals))
+            return True
+        return False
+
     def expr_stmt(self, e, node):
         A = self.area
+        if self.try_effect(e, node):
+            return False
         if isinstance(e, ast.Call) and isinstance(e.func, ast.Attribute) and not e.keywords:
             m = e.func.attr
             recv = e.func.value
@@ -1399,6 +1514,10 @@ class Fx:
                     self.assign_path(b.path, "PyDict.empty", node, via="mutate")
                     return False
                 eq = A.eq_of(b.ty.a[0], self)
+                if m == "update" and len(e.args) == 1:
+                    o = self.expr(e.args[0], b.ty)
+                    self.mutate_path(b.path, lambda cur: "(PyDict.update %s %s %s)" % (eq, atom(cur), atom(o.text)), node, cur=b.text)
+                    return False
                 if m == "pop" and len(e.args) == 2 and isinstance(e.args[1], ast.Constant) and e.args[1].value is None:
                     k = self.expr(e.args[0], b.ty.a[0])
                     self.mutate_path(b.path, lambda cur: "(PyDict.popD %s %s %s).2" % (eq, cur, k.text), node, cur=b.text)
@@ -1461,6 +1580,11 @@ class Fx:
             self.ind -= 1
             return t1 and t2
         # a raising test is lifted in front of the `if` (statement position): Python's order
+        st = self.static_cond(s.test)
+        if st is not None:
+            # a statically decided test (`if TYPE_CHECKING:`): only the live branch exists
+            live = s.body if st else s.orelse
+            return self.block(live, new_scope=False) if live else False
         c = self.cond_val(s.test, top=True)
         self.emit("if %s then" % c.text)
         self.ind += 1
@@ -1493,10 +1617,102 @@ class Fx:
                 return None
         return None
 
+    def while_stmt(self, s):
+        """`while c: body` -> `for _ in List.range (bound + 1) do (if !c then break); body`, then `pyFuel c`: the bound comes from the
+        spec (`while_fuel`, a Python expression read before the loop); if it is too small the generated function raises"""
+        if s.orelse:
+            self.fail("while/else", s)
+        fuels = self.spec.get("while_fuel", [])
+        k = getattr(self, "n_while", 0)
+        self.n_while = k + 1
+        if k >= len(fuels):
+            self.fail("while loop without a `while_fuel` bound in the spec", s)
+        fv = self.expr(ast.parse(fuels[k], mode="eval").body, None)
+        if fv.ty not in (NAT,) or fv.raises:
+            self.fail("the while_fuel expression must be a pure natural number", s)
+        fname = self.fresh("fuel")
+        self.emit("let %s := %s" % (fname, fv.text))
+        self.emit("for _ in List.range (%s + 1) do" % fname)
+        self.ind += 1
+        self.scopes.append({})
+        reads, kills = set(), set()
+        self.reads_log.append(reads)
+        self.kill_log.append(kills)
+        outer_vars = set()
+        for sc in self.scopes[:-1]:
+            outer_vars.update(sc.values())
+        c = self.cond_val(s.test, top=True)
+        self.emit("if %s then" % neg(c.text))
+        self.emit("  break")
+        self.block(s.body, new_scope=False)
+        self.scopes.pop()
+        self.reads_log.pop()
+        self.kill_log.pop()
+        self.ind -= 1
+        stale = [v.name for v in kills if v in outer_vars and v in reads]
+        if stale:
+            self.fail("alias %s would be stale on the next iteration of the loop" % ", ".join(sorted(stale)), s)
+        c2 = self.cond_val(s.test, top=True)
+        self.monadic()
+        self.emit("pyFuel %s" % c2.text)
+        return False
+
+    MUTATORS = ("append", "remove", "pop", "add", "clear", "discard", "setdefault", "update", "popleft")
+
+    def mutates_name(self, body, name):
+        """does the statement list change (an object reached through) the variable `name`?"""
+        def rooted(n):
+            while isinstance(n, (ast.Attribute, ast.Subscript)):
+                n = n.value
+            return isinstance(n, ast.Name) and n.id == name
+        for st in body:
+            for n in ast.walk(st):
+                if isinstance(n, ast.Call) and isinstance(n.func, ast.Attribute) and n.func.attr in self.MUTATORS and rooted(n.func.value):
+                    return True
+                if isinstance(n, (ast.Assign, ast.AugAssign, ast.AnnAssign, ast.Delete)):
+                    tgts = n.targets if isinstance(n, (ast.Assign, ast.Delete)) else [n.target]
+                    if any(isinstance(t, (ast.Attribute, ast.Subscript)) and rooted(t) for t in tgts):
+                        return True
+        return False
+
+    def map_loop(self, s, src, et, ipath):
+        """`for x in container: <changes x in place>`: the loop rebuilds the container from the changed elements.  The body may
+        not leave early (every element has to be put back) and may not look at the container itself (it would see the old one)"""
+        if not isinstance(s.target, ast.Name) or ipath is None:
+            self.fail("a loop that changes its loop variable needs a plain variable over an lvalue container", s)
+        for st in s.body:
+            for n in ast.walk(st):
+                if isinstance(n, (ast.Break, ast.Continue, ast.Return)):
+                    self.fail("break / continue / return in a loop that changes its loop variable in place", n)
+        itext = ast.unparse(s.iter)
+        if any(itext in ast.unparse(st) for st in s.body):
+            self.fail("a loop that changes its elements in place reads the container it iterates", s)
+        acc = self.fresh("acc")
+        name = s.target.id
+        self.emit("let mut %s : %s := []" % (acc, self.area.lean_ty(T("List", et))))
+        self.emit("for %s in %s do" % (lean_local(name), src))
+        self.ind += 1
+        self.scopes.append({})
+        v = self.declare(name, et)
+        v.token = None
+        v.reassigned = True
+        self.emit("let mut %s := %s" % (lean_local(name), lean_local(name)))
+        n_mut_before = len(self.lines)
+        self.block(s.body, new_scope=False)
+        self.emit("%s := %s ++ [%s]" % (acc, acc, lean_local(name)))
+        self.scopes.pop()
+        self.ind -= 1
+        if any(ipath.overlaps(p) for p in self.mutated_paths_since(n_mut_before)):
+            self.fail("the loop changes the container it iterates over", s)
+        self.assign_path(ipath, acc, s)
+        return False
+
     def for_stmt(self, s):
         if s.orelse:
             self.fail("for/else", s)
         src, et, ipath, raises = self.iterable(s.iter)
+        if isinstance(s.target, ast.Name) and is_mutable_ty(et) and self.mutates_name(s.body, s.target.id):
+            return self.map_loop(s, src, et, ipath)
         self.scopes.append({})
         reads, kills = set(), set()
         self.reads_log.append(reads)
@@ -1607,8 +1823,10 @@ def translate_function(area, fn, spec, cls):
     # patch returns, `let mut`
     pnames = (["self"] if has_self else []) + [n for n, _ in params]
     info.mutated = [p for p in pnames if p in info.mutated]
+    eff_ty = getattr(area.spec, "EFFECTS", {}).get("type")
     rt_comps = ([] if info.ret == NONE else [area.lean_ty(info.ret)]) + \
-               [area.lean_ty(area.self_ty(cls)) if p == "self" else area.lean_ty(dict(params)[p]) for p in info.mutated]
+               [area.lean_ty(area.self_ty(cls)) if p == "self" else area.lean_ty(dict(params)[p]) for p in info.mutated] + \
+               (["(List %s)" % eff_ty] if info.effects else [])
     rty = "Unit" if not rt_comps else (rt_comps[0] if len(rt_comps) == 1 else "(" + " × ".join(rt_comps) + ")")
     out = []
     for ln in fx.lines:
@@ -1616,7 +1834,7 @@ def translate_function(area, fn, spec, cls):
             i = ln.index("⟦ret:")
             j = ln.index("⟧", i)
             val = ln[i + 5:j]
-            comps = ([val] if info.ret != NONE else []) + [lean_local(p) for p in info.mutated]
+            comps = ([val] if info.ret != NONE else []) + [lean_local(p) for p in info.mutated] + (["effects"] if info.effects else [])
             txt = "()" if not comps else (comps[0] if len(comps) == 1 else "(" + ", ".join(comps) + ")")
             ln = ln[:i] + txt + ln[j + 1:]
         for tok, v in fx.tokens.items():
@@ -1626,11 +1844,18 @@ def translate_function(area, fn, spec, cls):
     head = []
     for p in info.mutated:
         head.append("  let mut %s := %s" % (lean_local(p), lean_local(p)))
+    if info.effects:
+        head.append("  let mut effects : List %s := []" % eff_ty)
     sig = "".join(" (%s : %s)" % (lean_local(n), area.lean_ty(area.self_ty(cls)) if n == "self" else area.lean_ty(dict(params)[n])) for n in pnames)
-    sig += "".join(" (%s : %s)" % (lean_local(n), area.lean_ty(area.ty(t))) for n, t in spec.get("env", []))
+    for e in spec.get("env", []):
+        if len(e) == 3:
+            sig += " (%s : %s)" % (lean_local(e[0]), " → ".join([area.lean_ty(area.ty(t)) for t in e[2]] + [area.lean_ty(area.ty(e[1]))]))
+        else:
+            sig += " (%s : %s)" % (lean_local(e[0]), area.lean_ty(area.ty(e[1])))
     info.env = list(spec.get("env", []))
     low = " (lower : String → String)" if info.uses_lower else ""
-    doc = "/-- `%s` (%s:%d)%s -/" % (where, area.rel, fn.lineno, "" if not info.mutated else "; returns " + ("the result and " if info.ret != NONE else "") + "the changed " + ", ".join(info.mutated))
+    doc = "/-- `%s` (%s:%d)%s%s -/" % (where, area.rel, fn.lineno, "" if not info.mutated else "; returns " + ("the result and " if info.ret != NONE else "") + "the changed " + ", ".join(info.mutated),
+                                      "" if not info.effects else "; and the effects it caused, in order")
     if info.monadic:
         hdr = "def %s%s%s : Except PyExc %s := do" % (lean, low, sig, rty)
     else:
@@ -1651,8 +1876,11 @@ def translate_init(area, cdef, cspec):
         raise Fail("%s.__init__: parameters changed" % cls, init, area.rel)
     fs = area.fields[cls]
     vals = {}
-    info = FnInfo(cls + ".init", [], NONE, False, cls)
+    iparams = [(n, area.ty(t)) for n, t in cspec.get("init_params", [])]
+    info = FnInfo(cls + ".init", iparams, NONE, False, cls)
     fx = Fx(area, info, init, {"params": []}, cls)
+    for n, t in iparams:
+        fx.declare(n, t, is_param=True)
     for s in gen_lean.strip_doc(init.body):
         if isinstance(s, ast.AnnAssign) and s.value is not None:
             tgt, val = s.target, s.value
@@ -1671,7 +1899,11 @@ def translate_init(area, cdef, cspec):
     if missing:
         raise Fail("%s.__init__ no longer assigns %s" % (cls, ", ".join(missing)), init, area.rel)
     body = ", ".join("%s := %s" % (fs[f][0], vals[f]) for f in fs)
-    return "/-- `%s.__init__` (%s:%d) -/\ndef %s.init : %s := { %s }\n" % (cls, area.rel, init.lineno, cls, cls, body)
+    if fx.lines or info.monadic:
+        raise Fail("%s.__init__: an initialiser with statements / raise sites is outside the subset" % cls, init, area.rel)
+    sig = "".join(" (%s : %s)" % (lean_local(n), area.lean_ty(t)) for n, t in iparams)
+    area.inits[cls] = iparams
+    return "/-- `%s.__init__` (%s:%d) -/\ndef %s.init%s : %s := { %s }\n" % (cls, cspec.get("source", area.rel), init.lineno, cls, sig, cls, body)
 
 
 def calls_in(fn, cls, keys):
@@ -1705,6 +1937,18 @@ def gen_area(repo, spec, common, cenv):
     except Fail as f:
         f.file = f.file or rel
         raise
+    # constants the module imports from other modules of the library (`from .answers import MULTICAST_DELAY_RANDOM_INTERVAL`)
+    for rel2 in getattr(spec, "CONSTS_FROM", []):
+        try:
+            _env2, found2 = gen_lean.module_consts(ast.parse((src / rel2).read_text()), cenv)
+        except (OSError, SyntaxError) as ex:
+            raise Fail("cannot parse: %s" % ex, file=rel2)
+        stem = pathlib.PurePosixPath(rel2).stem
+        for n in tree.body:
+            if isinstance(n, ast.ImportFrom) and (n.module or "").split(".")[-1] == stem:
+                for a in n.names:
+                    if a.name in found2 and a.asname is None:
+                        consts[a.name] = found2[a.name]
     area = Area(spec, common, tree, consts, rel)
     # collect the functions to translate
     todo = {}  # key -> (fn node, spec, cls)
@@ -1719,10 +1963,23 @@ def gen_area(repo, spec, common, cenv):
         order.append((None, fs["name"]))
     cdefs = {}
     for c in spec.CLASSES:
+        ctree, crel = tree, rel
+        if c.get("source"):
+            crel = c["source"]
+            try:
+                ctree = ast.parse((src / crel).read_text())
+            except (OSError, SyntaxError) as ex:
+                raise Fail("cannot parse: %s" % ex, file=crel)
+            try:
+                import alpha
+
+                alpha.normalise(ctree, crel)
+            except ImportError:
+                pass
         try:
-            cdef = gen_lean.find_def(tree, c["py"])
+            cdef = gen_lean.find_def(ctree, c["py"])
         except Fail as f:
-            f.file = rel
+            f.file = crel
             raise
         cdefs[c["py"]] = cdef
         for ms in c["methods"]:
@@ -1761,12 +2018,24 @@ def gen_area(repo, spec, common, cenv):
     lines = ["/- GENERATED by tools/gen_fn.py from /repo/src/zeroconf/%s -- do not edit -/" % rel, "import Zc.Py.Runtime"]
     lines += ["import %s" % m for m in spec.IMPORTS]
     lines += ["set_option linter.unusedVariables false", "namespace Zc.GenFn.%s" % spec.AREA, "open Zc Zc.Py", ""]
+    if getattr(spec, "PRELUDE_LEAN", None):
+        lines += [spec.PRELUDE_LEAN.strip("\n"), ""]
+    # helper functions of other modules whose definition the translation relies on (e.g. millis_to_seconds(x) = x / 1000.0)
+    for pin in getattr(spec, "PINS", []):
+        try:
+            ptree = ast.parse((src / pin["source"]).read_text())
+            pfn = gen_lean.find_def(ptree, pin["def"])
+            got = ast.unparse(gen_lean.single_return(pfn))
+        except (OSError, SyntaxError, Fail) as ex:
+            raise Fail("pinned helper %s: %s" % (pin["def"], getattr(ex, "msg", ex)), file=pin["source"])
+        if got != pin["returns"]:
+            raise Fail("pinned helper %s now returns `%s` (the translation assumes `%s`)" % (pin["def"], got, pin["returns"]), pfn, pin["source"])
     for c in spec.CLASSES:
         cdef = cdefs[c["py"]]
         if c.get("opaque"):
             lines.append("/-! class `%s` (%s:%d): its objects are the model type `%s` -/\n" % (c["py"], rel, cdef.lineno, area.opaque[c["opaque"]]["lean"]))
             continue
-        lines.append("/-- class `%s` (%s:%d) -/" % (c["py"], rel, cdef.lineno))
+        lines.append("/-- class `%s` (%s:%d) -/" % (c["py"], c.get("source", rel), cdef.lineno))
         lines.append("structure %s where" % c["py"])
         for f, (lf, ft) in area.fields[c["py"]].items():
             lines.append("  %s : %s" % (lf, area.lean_ty(ft)))
